@@ -40,7 +40,7 @@ for p in props:
         if f:
             funcs.append(f[:80])
     a = p["anchors"]
-    text = f"""You work ONLY inside the scratch git worktree {wt} (a checkout of the Python library boschresearch/torchphysics, branch-less at HEAD). Never read or write /repo or /verif, never use `git stash`, never commit. Python is /venv/bin/python (torch etc. installed, no network). Run the test-suite with:
+    text = f"""You work ONLY inside the scratch git worktree {wt} (a checkout of the Python library boschresearch/torchphysics, branch-less at HEAD). Never read or write /repo or /verif, never use `git stash`, never commit, never use `pkill` / `killall` (other agents run the same commands in sibling worktrees; kill only process ids you started yourself). Python is /venv/bin/python (torch etc. installed, no network). Run the test-suite with:
   cd {wt} && PYTHONPATH={wt}/src /venv/bin/python -m pytest -q -p no:cacheprovider --no-cov -k 'not contour_animation' tests
 (about 25 s, 781 tests pass on the pristine tree; always set PYTHONPATH so the worktree's sources are imported, not the installed copy).
 
